@@ -9,7 +9,7 @@
    comparison of the RFC functions (instantiated with Gallina SHA-2/HMAC/HKDF) with the
    library's outputs.  Statements only; each is closed by [exact lemma]. *)
 From Coq Require Import NArith List.
-From MlsV Require Import Res Codec Hkdf KeyScheduleRFC KeyScheduleCode TreeMathGen TreeMathProofs KeyScheduleProofs.
+From MlsV Require Import Res Codec Hkdf KeyScheduleRFC KeyScheduleCode TreeMathGen TreeMathProofs KeyScheduleProofs PskIdeal ResumeGen ResumeGenProofs.
 Import ListNotations.
 Local Open Scope N_scope.
 
@@ -64,6 +64,12 @@ Theorem C13_ratchet_key : forall H, N.of_nat (h_len H) < 65536 ->
   k = (N.of_nat g, (ratchet_nonce H s (N.of_nat g) nn, ratchet_key H s (N.of_nat g) nk)).
 Proof. exact ratchet_key_ok. Qed.
 
+(* the (id, value) list that enters the PSK chain: PskResolver::resolve as translated from
+   psk/resolver.rs resolves the ids of the commit / Welcome one by one IN THEIR ORDER *)
+Theorem C13_translated_resolver_keeps_the_order : forall h l vs,
+  gen_resolve_all h (model_repo h) l = Some vs -> Forall2 (fun p v => gen_resolve_one h (model_repo h) p = Some v) l vs.
+Proof. exact translated_resolver_in_order. Qed.
+
 Print Assumptions C13_label_encoding.
 Print Assumptions C13_key_schedule.
 Print Assumptions C13_welcome_secret.
@@ -72,3 +78,4 @@ Print Assumptions C13_psk_secret.
 Print Assumptions C13_secret_tree_new.
 Print Assumptions C13_secret_tree_leaf.
 Print Assumptions C13_ratchet_key.
+Print Assumptions C13_translated_resolver_keeps_the_order.
